@@ -36,6 +36,14 @@ def configs(tier: str) -> list:
         "soft": ('<start> ::= <d>+\n<d> ::= r"[0-9]"\nmaximizing int(<start>)\nwhere len(str(<start>)) < 4\n', "123"),
         "set_of_symbols": ('<start> ::= <a> <b> <c>\n<a> ::= "1" | "2"\n<b> ::= "3" | "4"\n<c> ::= "5" | "6"\nwhere int(<a>) + int(<b>) + int(<c>) == 11\n', "245"),
         "ambiguous": ('<start> ::= <x>+\n<x> ::= "a" | "aa"\nwhere len(str(<start>)) == 4\n', "aaaa"),
+        # many independent two-way ambiguities: the ORDER of the parse forest depends on the iteration order of rule sets
+        "ambiguous_wide": ("<start> ::= <p1> <p2> <p3> <p4> <p5> <p6>\n" + "".join(f"<p{i}> ::= <x> <y> | <u> <v>\n" for i in range(1, 7))
+                           + '<x> ::= "a"\n<y> ::= "b"\n<u> ::= "a"\n<v> ::= "b"\n', "abababababab"),
+        "generator_ambiguous": ("<start> ::= <q1> <q2> <q3> <q4>\n" + "".join(f'<q{i}> ::= <d> <e> | <h> <k> := "cd"\n' for i in range(1, 5))
+                                + '<d> ::= "c"\n<e> ::= "d"\n<h> ::= "c"\n<k> ::= "d"\n', None),
+        # one explicit conjunction with several failing parts per individual: mutation picks among the failing trees
+        "conjunction": ('<start> ::= <a> "-" <b> "-" <c>\n<a> ::= <digit>+\n<b> ::= <digit>+\n<c> ::= <digit>+\n<digit> ::= r"[0-9]"\n'
+                        'where int(<a>) % 13 == 5 and int(<b>) % 17 == 11 and int(<c>) % 7 == 3\n', "5-11-3"),
     }
     names = list(specs)
     if tier == "quick":
@@ -47,6 +55,9 @@ def configs(tier: str) -> list:
         for seed in seeds:
             for pop in pops:
                 out.append({"name": n, "spec": specs[n][0], "word": specs[n][1], "seed": seed, "pop": pop})
+        # one long run per spec: many generations of crossover/mutation on individuals with several failing parts
+        for seed in ([3] if tier == "quick" else [0, 3]):
+            out.append({"name": n, "spec": specs[n][0], "word": specs[n][1], "seed": seed, "pop": 10, "n": 8, "gens": 20})
     return out
 
 
@@ -55,7 +66,7 @@ ENVS = list(itertools.product([0, 1], repeat=3))  # (heap, clock, imports)
 
 def child(task):
     cfg, (heap, clock, imports) = task
-    c = dict(cfg, heap=heap, clock=clock, imports=imports)
+    c = dict(cfg, heap=heap, clock=clock, imports=imports, n=cfg.get("n", 5), gens=cfg.get("gens", 6))
     env = dict(os.environ, PYTHONHASHSEED="0", PYTHONDONTWRITEBYTECODE="1")
     env.pop("FANDANGO_RAISE_ALL_EXCEPTIONS", None)
     r = subprocess.run(["/venv/bin/python", os.path.join(VERIF, "mc/c17_child.py"), json.dumps(c)], capture_output=True, text=True, env=env, timeout=600)
@@ -72,7 +83,7 @@ def run(ctx: Ctx) -> None:
     results = pmap_tagged(child, tasks, chunk=1)
     by_cfg = {}
     for (c, e), r in zip(tasks, results):
-        by_cfg.setdefault((c["name"], c["seed"], c["pop"]), []).append((e, r))
+        by_cfg.setdefault((c["name"], c["seed"], c["pop"], c.get("gens", 6)), []).append((e, r))
     distinct_outputs = set()
     emitted = 0
     for key, obs in by_cfg.items():
@@ -89,6 +100,6 @@ def run(ctx: Ctx) -> None:
         states=len(cfgs), transitions=len(tasks), traces_validated_against_impl=len(tasks),
         samples=[{"config": list(k), "solutions": v[0][1].get("fuzz")} for k, v in list(by_cfg.items())[:3]], exhaustive=True,
         configurations=len(cfgs), child_processes=len(tasks), distinct_outputs=len(distinct_outputs), solutions_compared=emitted,
-        rule="configuration = (spec, seed, population size); every configuration is run in 8 fresh processes, one per combination of heap layout / clock offset / import order, same PYTHONHASHSEED; ordered outputs must be identical",
+        rule="configuration = (spec, seed, population size, generations: 6 or 20); every configuration is run in 8 fresh processes, one per combination of heap layout / clock offset / import order, same PYTHONHASHSEED; ordered outputs must be identical",
     )
     ctx.assumptions += ["address-space layout, wall clock and import order are each modelled by a two-valued seam; os.urandom/uuid4 are not intercepted (they only name environments)"]
